@@ -105,7 +105,9 @@ func NewProcess(opts ...ProcOpts) *Process {
 func (p *Process) run() int {
 	verifGate(p, "run.precheck")
 	if p.procRunCtx.Err() != nil {
-		// stopped before it was started: there is nothing left to terminate
+		// stopped before it was started: the stop request marks the pending instance
+		// as done (Terminating); once it has, there is nothing left to terminate
+		p.waitForCompletion()
 		p.setState(types.ProcessStateCompleted)
 		return 0
 	}
